@@ -84,3 +84,8 @@ def run(ctx):
     ctx.sample(cases[0]); ctx.sample(cases[-1])
     ctx.assumptions += ['bounds -4..6, steps -3..3 (exhaustive); symbolic bounds b, c evaluated at the same values',
                         'consumers (loop unrolling, constant propagation) are exercised by C31/C32, not here']
+
+
+def selftest(ctx):
+    from .. import selftests
+    return selftests.c10(ctx)
